@@ -37,7 +37,7 @@ func (x *Exec) callExtern(p *Path, callee *ssa.Function, _ string, args []SV, re
 		}
 	}
 	switch key {
-	case "(*strings.Builder).WriteRune", "(*strings.Builder).WriteString", "(*strings.Builder).Reset", "(*strings.Builder).String", "(*strings.Builder).Len":
+	case "(*strings.Builder).WriteRune", "(*strings.Builder).WriteString", "(*strings.Builder).WriteByte", "(*strings.Builder).Reset", "(*strings.Builder).String", "(*strings.Builder).Len":
 		b := args[0]
 		if b.K != KLoc {
 			x.errorf("%s: strings.Builder receiver is not a cell", x.cur.ct.Func)
@@ -48,6 +48,9 @@ func (x *Exec) callExtern(p *Path, callee *ssa.Function, _ string, args []SV, re
 		case "WriteRune":
 			x.store1(p, "CStr", b.Loc.Cell, fmt.Sprintf("(app %s (runeStr %s))", cur, args[1].T))
 			bindRes(SV{K: KTuple, Tup: []SV{term("0", SInt), term("VNil", SVal)}})
+		case "WriteByte":
+			x.store1(p, "CStr", b.Loc.Cell, fmt.Sprintf("(app %s (byteStr %s))", cur, args[1].T))
+			bindRes(term("VNil", SVal))
 		case "WriteString":
 			x.store1(p, "CStr", b.Loc.Cell, fmt.Sprintf("(app %s %s)", cur, args[1].T))
 			bindRes(SV{K: KTuple, Tup: []SV{term("0", SInt), term("VNil", SVal)}})
